@@ -55,7 +55,9 @@ def extract_platforms(setmap):
     Extract a list of unique platforms from a set map
     """
     unique_platforms = set(it.chain.from_iterable(setmap.keys()))
-    return list(unique_platforms)
+    # Sorted: the order reaches floating-point sums (divergence) and report
+    # layouts, and must not depend on string-hash randomisation.
+    return sorted(unique_platforms)
 
 
 def coverage(
@@ -132,7 +134,7 @@ def average_coverage(
     if len(platforms) == 0:
         return float("nan")
 
-    total = sum([coverage(setmap, [p]) for p in platforms])
+    total = sum([coverage(setmap, [p]) for p in sorted(platforms)])
     return total / len(platforms)
 
 
@@ -383,7 +385,7 @@ def duplicates(codebase: CodeBase, stream: TextIO = sys.stdout):
 
     for i, matches in enumerate(confirmed_matches):
         print(f"Match {i}:", file=stream)
-        for path in matches:
+        for path in sorted(matches):
             print(f"- {path}", file=stream)
         if i != len(confirmed_matches) - 1:
             print("", file=stream)
